@@ -16,38 +16,132 @@ TM = R.type_to_micheline
 
 # ----------------------------------------------------------------------------- cases
 
-def build_cases(themes, cfg, seed):
-    """cfg[theme.name] = dict(ex_len, walk_len, walks, body_len, inputs, budget).  -> (cases, stats)"""
-    cases, stats = [], {}
+def _cases_of(th, progs, c, rng):
+    out = []
+    for pi, (S0, prog, Sf) in enumerate(progs):
+        vecs = G.input_vectors(S0, c['inputs'], rng) if S0 else [()]
+        envs = G.ENVS[:th.envs]
+        for vi, V in enumerate(vecs):
+            env = envs[(pi + vi) % len(envs)] if th.envs > 1 and vi else envs[0]
+            if th.envs > 1 and not S0:
+                for env in envs:
+                    out.append(dict(theme=th.name, S=S0, code=prog, V=V, env=env, n=len(prog)))
+                break
+            out.append(dict(theme=th.name, S=S0, code=prog, V=V, env=env, n=len(prog)))
+    return out
+
+
+def _cut(cases, budget, rng):
+    if budget and len(cases) > budget:
+        keep = [x for x in cases if x['n'] <= 1]
+        rest = [x for x in cases if x['n'] > 1]
+        rng.shuffle(rest)
+        cases = (keep + rest)[:budget] if len(keep) < budget else keep[:budget]
+    return cases
+
+
+def make_tasks(themes, cfg, seed, parts=4):
+    """generation + evaluation units that run inside the worker processes: for every (theme, initial stack) one task for
+    the exhaustive part and `parts` tasks for the seeded walks"""
+    tasks = []
     for th in themes:
         c = cfg[th.name]
-        progs, n_ex = G.enumerate_programs(th, c['ex_len'], c['walk_len'], c['walks'], c['body_len'],
-                                           width=c.get('width', 2), site_cap=c.get('site_cap', 12), seed=seed)
-        rng = random.Random(f'{seed}/{th.name}/inputs')
-        mine = []
-        for pi, (S0, prog, Sf) in enumerate(progs):
-            vecs = G.input_vectors(S0, c['inputs'], rng) if S0 else [()]
-            envs = G.ENVS[:th.envs]
-            for vi, V in enumerate(vecs):
-                env = envs[(pi + vi) % len(envs)] if th.envs > 1 and vi else envs[0]
-                if th.envs > 1 and not S0:
-                    for env in envs:
-                        mine.append(dict(theme=th.name, S=S0, code=prog, V=V, env=env, n=len(prog)))
-                    break
-                mine.append(dict(theme=th.name, S=S0, code=prog, V=V, env=env, n=len(prog)))
-        total = len(mine)
-        budget = c.get('budget')
-        if budget and total > budget:
-            keep = [x for x in mine if x['n'] <= 1]
-            rest = [x for x in mine if x['n'] > 1]
-            rng.shuffle(rest)
-            mine = (keep + rest)[:max(budget, 0)] if len(keep) < budget else keep[:budget]
-        stats[th.name] = dict(programs=len(progs), exhaustive_programs=n_ex, cases_enumerated=total, cases_run=len(mine),
-                              exhaustive_len=c['ex_len'], walk_len=c['walk_len'], body_len=c['body_len'])
-        cases += mine
-    for i, c in enumerate(cases):
-        c['id'] = i
-        c['contract'] = (i % cfg.get('_contract_every', 4) == 0)
+        n = len(th.stacks) * (1 + parts)
+        for si in range(len(th.stacks)):
+            tasks.append(dict(theme=th.name, si=si, part='ex', cfg=c, seed=seed, budget=max(1, c['budget'] // (2 * len(th.stacks)))))
+            for k in range(parts):
+                tasks.append(dict(theme=th.name, si=si, part=k, cfg=c, seed=seed, walks=-(-c['walks'] // parts),
+                                  budget=max(1, c['budget'] // (2 * len(th.stacks) * parts))))
+    for i, t in enumerate(tasks):
+        t['tid'] = i
+    return tasks
+
+
+def task_cases(task):
+    th = next(t for t in G.C17_THEMES + G.C02_THEMES + G.THEMES if t.name == task['theme'])
+    c, S0 = task['cfg'], None
+    S0 = th.stacks[task['si']]
+    rng = random.Random(f"{task['seed']}/{th.name}/{task['si']}/{task['part']}")
+    g = G.Gen(th, c['body_len'], c.get('width', 2), c.get('site_cap', 12), 1, rng)
+    progs, seen = [], set()
+    if task['part'] == 'ex':
+        progs = [(S0, p, Sf) for p, Sf in g.exhaustive(S0, c['ex_len'])]
+    elif c['walk_len'] > c['ex_len']:
+        tries = 0
+        while len(progs) < task['walks'] and tries < 4 * task['walks']:
+            tries += 1
+            p, Sf = g.walk(S0, rng.randrange(c['ex_len'] + 1, c['walk_len'] + 1))
+            key = R.freeze(p)
+            if len(p) > c['ex_len'] and key not in seen:
+                seen.add(key)
+                progs.append((S0, p, Sf))
+    cases = _cases_of(th, progs, c, rng)
+    total = len(cases)
+    cases = _cut(cases, task['budget'], rng)
+    for i, x in enumerate(cases):
+        x['id'] = (task['tid'], i)
+        x['contract'] = (i % 4 == 0)
+    return cases, dict(programs=len(progs), cases_enumerated=total, cases_run=len(cases))
+
+
+def run_task(task):
+    """-> (task id, slim results, stats); a slim result carries what the parent needs: status, findings, class, sample"""
+    cases, st = task_cases(task)
+    ev = task.get('evaluator') or eval_case
+    out = []
+    for c in cases:
+        r = ev(c)
+        r['cls'] = class_key(c)
+        r['n'] = c['n']
+        if c['n'] == 2 and c['id'][1] % 53 == 0:
+            r['sample'] = dict(theme=c['theme'], code=c['code'], stack_types=[E.tstr(t) for t in c['S']],
+                               stack=[R.data_to_micheline_safe(t, v) for t, v in zip(c['S'], c['V'])])
+        if r['status'] == 'timeout':
+            r['case'] = c
+        out.append(r)
+    return task['tid'], out, st
+
+
+def run_tasks(tasks, procs=None, evaluator=None):
+    """-> (results sorted by id, stats per theme)"""
+    procs = procs or min(16, os.cpu_count() or 4)
+    E.install_probe()
+    for t in tasks:
+        t['evaluator'] = evaluator
+    order = sorted(tasks, key=lambda t: (t['part'] != 'ex', -t['budget']))       # heavy ones first
+    if procs <= 1:
+        done = [run_task(t) for t in order]
+    else:
+        with mp.get_context('fork').Pool(procs) as pool:
+            done = list(pool.imap_unordered(run_task, order, chunksize=1))
+    done.sort(key=lambda d: d[0])
+    results, stats = [], {}
+    by_tid = {t['tid']: t for t in tasks}
+    for tid, res, st in done:
+        th = by_tid[tid]['theme']
+        agg = stats.setdefault(th, dict(programs=0, cases_enumerated=0, cases_run=0, tasks=0))
+        for k in ('programs', 'cases_enumerated', 'cases_run'):
+            agg[k] += st[k]
+        agg['tasks'] += 1
+        for r in res:
+            if r['status'] == 'timeout':          # retried once, alone, before it counts
+                c = r.pop('case')
+                r2 = (evaluator or eval_case)(c)
+                r2.update(cls=r['cls'], n=r['n'])
+                r = r2
+            results.append(r)
+    return results, stats
+
+
+def build_cases(themes, cfg, seed):
+    """all cases in the parent process (used by small runs and tools).  -> (cases, stats)"""
+    cases, stats = [], {}
+    for t in make_tasks(themes, cfg, seed):
+        cs, st = task_cases(t)
+        cases += cs
+        agg = stats.setdefault(t['theme'], dict(programs=0, cases_enumerated=0, cases_run=0))
+        for k in agg:
+            agg[k] += st[k]
     return cases, stats
 
 
@@ -179,15 +273,40 @@ def _flatten(code):
     return out
 
 
-def shrink_prefix(code, S, V, env, prop):
+def _descend(ins, St, Vt):
+    """for DIP / IF* the failing instruction is looked for inside the body that the reference run executes:
+    -> (body, stack types, stack values) or None"""
+    if not (isinstance(ins, dict) and ins.get('prim') in ('DIP', 'IF', 'IF_NONE', 'IF_LEFT', 'IF_CONS')):
+        return None
+    prim, args = ins['prim'], ins.get('args', [])
+    try:
+        if prim == 'DIP':
+            n = int(args[0]['int']) if len(args) == 2 else 1
+            return args[-1], tuple(St[n:]), tuple(Vt[n:])
+        s1, s2 = R._branch_inputs(prim, St)
+        h, rest = Vt[0], tuple(Vt[1:])
+        if prim == 'IF':
+            return (args[0], s1, rest) if h else (args[1], s2, rest)
+        if prim == 'IF_NONE':
+            return (args[0], s1, rest) if h is None else (args[1], s2, (h[1],) + rest)
+        if prim == 'IF_LEFT':
+            return (args[0], s1, (h[1],) + rest) if h[0] == 'Left' else (args[1], s2, (h[1],) + rest)
+        return (args[0], s1, (h[0], h[1:]) + rest) if h else (args[1], s2, rest)
+    except Exception:  # noqa
+        return None
+
+
+def shrink_prefix(code, S, V, env, prop, depth=0):
     """shortest failing prefix of the (flattened) top-level sequence; the last instruction of it is described with
-    the reference stack it is applied to"""
+    the reference stack it is applied to (descending into DIP / IF* bodies)"""
     code = _flatten(code)
     for n in range(1, len(code) + 1):
         try:
             fs, _, _ = findings_for(code[:n], S, V, env)
         except Exception:  # noqa
             continue
+        if depth > 0 and any(f[1] == 'requires.input_accepted' for f in fs):
+            return None                   # the inner stack cannot be handed to the real interpreter as literals
         fs = [f for f in fs if f[0] == prop]
         if fs:
             St, Vt = tuple(S), tuple(V)
@@ -198,6 +317,11 @@ def shrink_prefix(code, S, V, env, prop):
                         St, Vt = before[1], before[2]
                 except R.RefError:
                     pass
+            inner = _descend(code[n - 1], St, Vt) if depth < 4 else None
+            if inner is not None:
+                sub = shrink_prefix(inner[0], inner[1], inner[2], env, prop, depth + 1)
+                if sub is not None:
+                    return sub
             return dict(code=code[:n], S=tuple(S), V=tuple(V), finding=fs[0], ins=R.freeze(code[n - 1]), St=St, Vt=Vt)
     return None
 
@@ -232,7 +356,8 @@ def report(case, f, mode='stack'):
     if sh:
         where = 'in-context ' + E.describe(sh['ins'], sh['St']) + ' [' + vtraits(sh['ins'], sh['St'], sh['Vt']) + ']'
         return dict(prop=prop, oid=f'{prop}::{sh["finding"][1]}', wclass=f'{where} -> {sh["finding"][3]}',
-                    message=f'{where}: {sh["finding"][2]}', case=jcase(sh['code'], S, V, env, prop, sh['finding'][1]), id=case['id'])
+                    message=f'{where}: {sh["finding"][2]}  (found in program {code})',
+                    case=jcase(sh['code'], sh['S'], sh['V'], env, prop, sh['finding'][1]), id=case['id'])
     where = f'{mode} ' + ';'.join(_top_prim(i) for i in code)
     return dict(prop=prop, oid=f'{prop}::{clause}', wclass=f'{where} -> {trait}', message=f'{where}: {msg}',
                 case=dict(jcase(code, S, V, env, prop, clause), mode=mode), id=case['id'])
@@ -309,7 +434,11 @@ def eval_case(case):
         try:
             for f in eval_contract_mode(case, ref):
                 if f[0] not in stack_props:          # a failure of run_code that the plain execution does not show
-                    out['findings'].append(report(case, f, mode='run_code'))
+                    rep = report(case, f, mode='run_code')
+                    c02 = [x for x in out['findings'] if x['prop'] == 'C02']
+                    if c02 and "'END'" in f[2]:      # MichelsonProgram.end rejects the result because of its run-time type
+                        rep['wclass'] = 'run_code END rejects result type: ' + c02[0]['wclass']
+                    out['findings'].append(rep)
             out['contract_run'] = True
         except E.Timeout:
             out['status'] = 'timeout'
